@@ -19,11 +19,12 @@ class C04(Prop):
             "the parser; each printed by Print/PrintUnformatted/PrintBuffered(14 prebuffer sizes around the text length)/"
             "PrintPreallocated under custom hooks (no realloc) and the default allocator (realloc); oracle: parse(T) equals the "
             "source (numbers within 2^-52 relative, finite, integers < 10^15 exact), print(parse(T)) == T, all variants identical. "
+            "Print histories: objects printed one after the other whose constant keys sit at the same addresses with different contents. "
             "A C loop adds single-number trees (dense sweep). libFuzzer fz_parse checks the fixed point on parser-made trees. "
             "non-trivial = tree with a non-integer double, an escape-needing byte or depth >= 2; distinct by tree hash")
     ASSUMPTIONS = ["only the C locale exists in this sandbox (decimal point is always '.')"]
     REQUIRED_CLASSES = ["non_integer_double", "escape_needed", "depth>=2", "growth_exercised", "from_parser", "top_of_range_double",
-                        "invalid_utf8", "wide_shallow>limit"]
+                        "invalid_utf8", "wide_shallow>limit", "print_history_reused_constant_keys"]
 
     def budget(self, tier):
         return {"workers": 10, "examples": 900 if tier == "quick" else 10000}
@@ -51,12 +52,52 @@ class C04(Prop):
                                        "values": st.lists(st.one_of(numbers, st.integers(-330, 310).map(pow10),
                                                                     st.integers(0, 2 ** 64 - 1).map(bits)), min_size=20, max_size=60),
                                        "ulps": st.sampled_from([0, 2, 8])})
-        return st.one_of(tree, tree, tree, tree, tree, sweep).flatmap(
+        # print histories: several trees printed one after the other whose constant keys (cJSON_AddItemToObjectCS) live at the
+        # SAME addresses with different contents from round to round (a constant key only has to outlive its own object);
+        # every print must depend on the tree it is given and on nothing an earlier print saw
+        ckey = st.one_of(gens.ascii_keys(6), gens.escapey_strings(6), st.sampled_from([b"id", b"identifier", b"a", b"name", b"na\"me", b"k" * 40, b"\x01"]))
+        hist_round = st.lists(st.tuples(ckey, leaves_u), min_size=1, max_size=4)
+        history = st.fixed_dictionaries({"kind": st.just("history"), "rounds": st.lists(hist_round, min_size=2, max_size=4), "utf8": st.just(True)})
+        return gens.weighted((10, tree), (2, sweep), (1, history)).flatmap(
             lambda c: st.integers(0, 2 ** 31).map(lambda s: dict(c, rseed=s)))
+
+    def run_history(self, lib, case, stats):
+        slot = 64
+        buf = lib.guard_rw(None, slot * 4)
+        stats.cls("print_history_reused_constant_keys")
+        stats.nontriv(case["rounds"], {"rounds": case["rounds"]})
+        try:
+            for rnd_no, members in enumerate(case["rounds"]):
+                seen = set()
+                obj = lib.cJSON_CreateObject()
+                inner = lib.cJSON_CreateObject()
+                for i, (k, leaf) in enumerate(members):
+                    k = k.replace(b"\x00", b"")[:slot - 1]
+                    if k in seen:
+                        continue
+                    seen.add(k)
+                    ctypes.memmove(buf + i * slot, k + b"\x00", len(k) + 1)
+                    item = printing.build_tree(lib, leaf)
+                    lib.cJSON_AddItemToObjectCS(obj if i % 2 == 0 else inner, buf + i * slot, item)
+                lib.cJSON_AddItemToObject(obj, b"inner", inner)
+                try:
+                    texts = printing.print_all(lib, obj, stats, prebuf_subset=rnd_no)
+                    self.roundtrip(lib, obj, texts, stats, "print history, round %d (constant keys at re-used addresses)" % (rnd_no + 1))
+                    again = printing.print_all(lib, obj, None, prebuf_subset=rnd_no + 1)
+                    if again != texts:
+                        raise Violation("printing the same tree twice gives different text", key="print-unstable")
+                finally:
+                    lib.cJSON_Delete(obj)
+        finally:
+            lib.guard_release(buf)
+        if lib.ledger_live() != 0:
+            raise Violation("blocks left allocated after a print history", key="leak")
 
     def run_case(self, lib, case, stats):
         if case["kind"] == "numbers":
             return self.run_numbers(lib, case, stats)
+        if case["kind"] == "history":
+            return self.run_history(lib, case, stats)
         jv = case["jv"]
         if jv[0] == "D" and isinstance(jv[2], list):
             jv = ["D", jv[1], lib.nesting_limit + jv[2][1], jv[3]]
@@ -118,7 +159,7 @@ class C04(Prop):
 
     def roundtrip(self, lib, tree, texts, stats, what):
         src_dump, fl, _, _ = lib.dump(tree, 1, 0)
-        src_mask, src_nums = printing.mask_numbers(src_dump)
+        src_mask, src_nums = printing.mask_numbers(printing.strip_ownership(src_dump))
         for fmt in (0, 1):
             T = texts[fmt]
             po = lib.parse(2, T, 0, 0, 0)
